@@ -242,11 +242,12 @@ pub fn child_main(args: &[String], out: &mccore::Out) {
 
 /// One generating operation with a WIDE shape (U hidden messages / M committed messages): the invariant is judged
 /// inside the single transcript, which is where a block-wise or windowed scalar generator repeats itself.
-pub fn run_wide(s: Suite, proof: bool, n: usize, label: &str) -> Obs {
+pub fn run_wide(s: Suite, proof: bool, n: usize, dup: usize, label: &str) -> Obs {
     let zk = z(s);
     let k = key(s, "k0");
     let mut o = Obs::default();
-    let msgs: Vec<Vec<u8>> = (0..n).map(|i| format!("wide-{}", i).into_bytes()).collect();
+    // dup > 0: the messages repeat with period `dup` (equal hidden messages inside one transcript must still get distinct blinding)
+    let msgs: Vec<Vec<u8>> = (0..n).map(|i| format!("wide-{}", if dup > 0 { i % dup } else { i }).into_bytes()).collect();
     if proof {
         let pk96: [u8; 96] = k.pk.clone().try_into().unwrap();
         let sk = refbbs::octets_to_scalar_strict(&k.sk).unwrap();
@@ -274,35 +275,37 @@ pub fn run_wide(s: Suite, proof: bool, n: usize, label: &str) -> Obs {
 }
 
 pub fn run(env: &Env) {
-    env.ctx.set_rule("alphabet of 8 generating operations on identical fixed inputs (proof_gen D=none, proof_gen D=all, blind_proof_gen, commit M=0, commit M=2, BlindFactor::random, KeyPair::random, generate_random_secret); ALL histories of length <= 3 (584) x 4 thread placements (same thread; fresh OS thread per op; two concurrent threads from a barrier; a reused thread that generated before) x 2 suites, the freshness invariant evaluated after every operation over everything produced so far; each single op repeated 64 times; wide shapes: proof_gen with EVERY U in 0..=72 (thorough 0..=300) and {128, 257} hidden messages and commit with every such M, judged inside the single transcript; the same histories in two child processes (cross-process). Invariant: all witness-recomputed blinding scalars, responses, challenges, secrets non-zero, >= 2^128, pairwise distinct and pairwise more than 2^64 apart mod r; all points pairwise distinct; no two-transcript extraction of e / hidden messages / blinding factor; no 32/48-octet window of an encoding equals a hidden scalar, e, or A. State = (suite, placement, history prefix); non-trivial = at least one production-randomness artefact was produced and judged.");
+    env.ctx.set_rule("alphabet of 8 generating operations on identical fixed inputs (proof_gen D=none, proof_gen D=all, blind_proof_gen, commit M=0, commit M=2, BlindFactor::random, KeyPair::random, generate_random_secret); ALL histories of length <= 3 (584) x 4 thread placements (same thread; fresh OS thread per op; two concurrent threads from a barrier; a reused thread that generated before) x 2 suites, the freshness invariant evaluated after every operation over everything produced so far; each single op repeated 64 times; wide shapes: proof_gen with EVERY U in 0..=72 (thorough 0..=300) and {128, 257} hidden messages and commit with every such M, judged inside the single transcript; transcripts with EQUAL hidden / committed messages (all equal, period 2, period 3); the same histories in two child processes (cross-process). Invariant: all witness-recomputed blinding scalars, responses, challenges, secrets non-zero, >= 2^128, pairwise distinct and pairwise more than 2^64 apart mod r; all points pairwise distinct; no two-transcript extraction of e / hidden messages / blinding factor; no 32/48-octet window of an encoding equals a hidden scalar, e, or A. State = (suite, placement, history prefix); non-trivial = at least one production-randomness artefact was produced and judged.");
     env.ctx.assume("independence/unpredictability of the CSPRNG itself is not decidable by bounded exploration; the check decides absence of reuse, of low-entropy and of small-difference relations within the explored histories, threads and two processes");
     let seed = env.ctx.seed;
     let _ = seed;
     let maxlen = 3;
     let mut hists: Vec<Vec<usize>> = Vec::new();
     for len in 1..=maxlen { hists.extend(tuples(OPS.len(), len)); }
-    struct Root { id: String, suite: Suite, hist: Vec<usize>, placement: usize, kind: u8, wide: usize }
+    struct Root { id: String, suite: Suite, hist: Vec<usize>, placement: usize, kind: u8, wide: usize, dup: usize }
     let mut roots = Vec::new();
     for s in suites() {
         for h in &hists { for p in 0..4 {
             if !env.thorough() && s == Suite::Shake256 && h.len() == 3 && p != 1 { continue; } // quick: second suite takes length-3 histories on fresh threads only
-            roots.push(Root { id: format!("{}/{}/{:?}", s.name(), PLACEMENTS[p], h), suite: s, hist: h.clone(), placement: p, kind: 0, wide: 0 });
+            roots.push(Root { id: format!("{}/{}/{:?}", s.name(), PLACEMENTS[p], h), suite: s, hist: h.clone(), placement: p, kind: 0, wide: 0, dup: 0 });
         } }
-        for op in 0..OPS.len() { roots.push(Root { id: format!("{}/repeat64/{}", s.name(), OPS[op]), suite: s, hist: vec![op; if env.thorough() { 256 } else { 64 }], placement: 0, kind: 1, wide: 0 }); }
+        for op in 0..OPS.len() { roots.push(Root { id: format!("{}/repeat64/{}", s.name(), OPS[op]), suite: s, hist: vec![op; if env.thorough() { 256 } else { 64 }], placement: 0, kind: 1, wide: 0, dup: 0 }); }
         let mut xp: Vec<Vec<usize>> = (0..OPS.len()).map(|o| vec![o]).collect();
         xp.extend([vec![0, 4, 5], vec![6, 7, 2], vec![5, 5, 5], vec![3, 1, 6]]);
         if env.thorough() { xp.extend(tuples(OPS.len(), 2)); }
-        for h in xp { roots.push(Root { id: format!("{}/cross-process/{:?}", s.name(), h), suite: s, hist: h, placement: 0, kind: 2, wide: 0 }); }
+        for h in xp { roots.push(Root { id: format!("{}/cross-process/{:?}", s.name(), h), suite: s, hist: h, placement: 0, kind: 2, wide: 0, dup: 0 }); }
     }
     // wide shapes: EVERY count of hidden / committed messages 0..=72 (thorough 0..=300) plus 128 and 257, both operations
     for s in suites() {
         let mut ns: Vec<usize> = (0..=if env.thorough() { 300 } else { 72 }).collect(); ns.extend([128, 257]);
-        for n in ns { for pr in [true, false] { if !env.thorough() && s == Suite::Shake256 && n % 8 != 1 && n % 8 != 0 { continue; } roots.push(Root { id: format!("{}/wide/{}/{}", s.name(), if pr { "proof_gen(U)" } else { "commit(M)" }, n), suite: s, hist: vec![if pr { 0 } else { 4 }], placement: 0, kind: 3, wide: n }); } }
+        for n in ns { for pr in [true, false] { if !env.thorough() && s == Suite::Shake256 && n % 8 != 1 && n % 8 != 0 { continue; } roots.push(Root { id: format!("{}/wide/{}/{}", s.name(), if pr { "proof_gen(U)" } else { "commit(M)" }, n), suite: s, hist: vec![if pr { 0 } else { 4 }], placement: 0, kind: 3, wide: n, dup: 0 }); } }
+        // equal messages inside one transcript: all equal, and repeating with period 2 / 3
+        for (n, dup) in [(2usize, 1usize), (3, 1), (5, 1), (4, 2), (6, 3), (7, 2)] { for pr in [true, false] { roots.push(Root { id: format!("{}/equal-messages/{}/n{}/period{}", s.name(), if pr { "proof_gen" } else { "commit" }, n, dup), suite: s, hist: vec![if pr { 0 } else { 4 }], placement: 0, kind: 3, wide: n, dup }); } }
     }
     par_for(&roots, |_, r| {
         if !env.want(&r.id) || env.ctx.out_of_time() { return; }
         if r.kind == 3 {
-            let obs = run_wide(r.suite, r.hist[0] == 0, r.wide, "wide");
+            let obs = run_wide(r.suite, r.hist[0] == 0, r.wide, r.dup, "wide");
             env.ctx.step(); env.ctx.state(&[r.id.as_bytes()]);
             for (cls, what) in invariant(&obs) { env.ctx.violation(&format!("C07:wide-shape:{}", cls), &format!("{} (one transcript with {} hidden/committed messages)", what, r.wide), env.case(&r.id, json!({"operation": if r.hist[0] == 0 { "proof_gen with U hidden messages" } else { "commit with M messages" }, "count": r.wide}))); }
             env.ctx.class("wide-shape"); env.ctx.trace();
